@@ -736,6 +736,31 @@ class TestNDCategoricalSubsets():
         subset.subset_state = CategoricalROISubsetState(att=self.data.id['sex'], roi=roi)
         np.testing.assert_equal(self.data.subsets[0].to_mask(), [[1, 1, 0], [0, 1, 0]])
 
+    def test_categorical_2d_subsets(self):
+
+        # The masks of these two classes should have the shape of the values
+        # for n-dimensional datasets and for any view, including views that
+        # select a single element or that are made of 2-d index arrays.
+
+        self.data['age'] = [[1., 5., 3.], [7., 2., 9.]]
+        sex, age = self.data.id['sex'], self.data.id['age']
+
+        state = CategoricalROISubsetState2D({'Male': ['Male'], 'Female': ['Male']}, sex, sex)
+        mask = state.to_mask(self.data)
+        np.testing.assert_equal(mask, [[1, 1, 0], [0, 1, 0]])
+        views = [(0, 1), (1, 2), (1,), (slice(None), 2),
+                 (np.array([[0, 1], [1, 0]]), np.array([[2, 1], [0, 0]]))]
+        for view in views:
+            np.testing.assert_equal(state.to_mask(self.data, view=view), mask[view])
+            assert state.to_mask(self.data, view=view).shape == mask[view].shape
+
+        state = CategoricalMultiRangeSubsetState({'Male': [(0, 2), (4, 6)], 'Female': [(8, 10)]}, sex, age)
+        mask = state.to_mask(self.data)
+        np.testing.assert_equal(mask, [[1, 1, 0], [0, 1, 1]])
+        for view in views:
+            np.testing.assert_equal(state.to_mask(self.data, view=view), mask[view])
+            assert state.to_mask(self.data, view=view).shape == mask[view].shape
+
 
 class TestCloneSubsetStates():
 
